@@ -217,11 +217,110 @@ Qed.
 Theorem fix_blank_lines_no_empty_inner_line l : no_cr_cr (fix_blank_lines l) = true.
 Proof. apply fbl_no_cr_cr. Qed.
 
-(* ... but an empty first line keeps none, and a blank_line object left on a line that is no longer empty is never
-   removed: after these the model is not something the reader can return (witnesses for the known C08 findings) *)
+(* ---- a blank_line object is alone on its line after the normaliser ---- *)
+(* [prev_cr]: the object before the head is a carriage return (or the head is the first object) *)
+Fixpoint alone_from (prev_cr : bool) (l : list tok) : bool :=
+  match l with
+  | [] => true
+  | t :: r =>
+      (if is_blank t then prev_cr && match r with n :: _ => is_cr n | [] => true end else true)
+      && alone_from (is_cr t) r
+  end.
+
+Lemma cr_not_blank t : is_cr t = true -> kind_eqb (tk t) KBlank = false.
+Proof. unfold is_cr. destruct (tk t); cbn; congruence. Qed.
+
+Lemma drop_stale_head_cr p n r : is_cr n = true -> drop_stale p (n :: r) = n :: drop_stale true r.
+Proof. intros H. cbn [drop_stale]. rewrite (cr_not_blank _ H). cbn [andb]. now rewrite H. Qed.
+
+Lemma drop_stale_alone l : forall p q, (p = true -> q = true) -> alone_from q (drop_stale p l) = true.
+Proof.
+  induction l as [|t r IH]; intros p q Hpq; [reflexivity|].
+  cbn [drop_stale].
+  set (next_cr := match r with n :: _ => is_cr n | [] => true end).
+  destruct (kind_eqb (tk t) KBlank) eqn:Eb; cbn [andb].
+  - assert (Ht : is_cr t = false) by (unfold is_cr; destruct (tk t); cbn in *; congruence).
+    rewrite Ht. destruct (p && next_cr) eqn:Epn; cbn [negb].
+    + apply andb_prop in Epn. destruct Epn as [Ep En]. subst p.
+      cbn [alone_from]. unfold is_blank at 1. rewrite Eb, Ht, (Hpq eq_refl). cbn [andb].
+      destruct r as [|n r'].
+      * reflexivity.
+      * unfold next_cr in En. rewrite (drop_stale_head_cr _ _ _ En), En. cbn [andb].
+        rewrite <- (drop_stale_head_cr false _ _ En). apply IH. discriminate.
+    + apply IH. discriminate.
+  - cbn [alone_from]. unfold is_blank at 1. rewrite Eb. cbn [andb]. apply IH. auto.
+Qed.
+
+(* the second pass keeps them alone and the blank_line objects it creates are alone too.  [q]: the last object
+   emitted is a carriage return; it may disagree with the input's previous kind only right after an inserted
+   blank_line object, and then the head of the input is a carriage return *)
+Lemma fbl_head_cr all prev n r : is_cr n = true -> exists r', fbl all prev (n :: r) = n :: r'.
+Proof.
+  intros H. cbn [fbl]. unfold is_cr in H. rewrite H.
+  destruct (true && okind_is _ KCr); [eexists; reflexivity|].
+  assert (W : kind_eqb (tk n) KWs = false) by (destruct (tk n); cbn in *; congruence).
+  rewrite W, andb_false_r. cbn [andb]. eexists; reflexivity.
+Qed.
+
+Lemma alone_from_head_cr a b n r : is_cr n = true -> alone_from a (n :: r) = alone_from b (n :: r).
+Proof.
+  intros H. cbn [alone_from]. unfold is_blank. rewrite (cr_not_blank _ H). reflexivity.
+Qed.
+
+Lemma fbl_alone all l : forall prev q,
+  alone_from q l = true ->
+  ((okind_is prev KCr = true -> q = true) \/ match l with n :: _ => is_cr n = true | [] => True end) ->
+  alone_from q (fbl all prev l) = true.
+Proof.
+  induction l as [|t r IH]; intros prev q H D; [reflexivity|].
+  cbn [alone_from] in H. apply andb_prop in H. destruct H as [Hb Hr].
+  cbn [fbl].
+  set (next := match r with n :: _ => Some (tk n) | [] => None end).
+  destruct (kind_eqb (tk t) KCr && okind_is next KCr) eqn:E1.
+  - apply andb_prop in E1. destruct E1 as [Et En].
+    destruct r as [|n r']; [discriminate En|]. unfold next, okind_is in En.
+    assert (Hn : is_cr n = true) by exact En.
+    destruct (fbl_head_cr all (Some (tk t)) n r' Hn) as [r'' Hx].
+    cbn [alone_from]. unfold is_blank at 1. rewrite (cr_not_blank t Et). cbn [andb].
+    unfold is_blank at 1. cbn [tk kind_eqb]. unfold is_cr at 1. rewrite Et.
+    rewrite Hx at 1. rewrite Hn. cbn [andb].
+    unfold is_cr at 1. cbn [tk kind_eqb].
+    apply IH; [|right; exact Hn].
+    rewrite (alone_from_head_cr false (is_cr t) n r' Hn). exact Hr.
+  - destruct (okind_is prev KCr && kind_eqb (tk t) KWs && okind_is next KCr) eqn:E2.
+    + apply andb_prop in E2. destruct E2 as [E2 En]. apply andb_prop in E2. destruct E2 as [Ep Ew].
+      assert (Ht : is_cr t = false) by (unfold is_cr; destruct (tk t); cbn in *; congruence).
+      destruct r as [|n r']; [discriminate En|]. unfold next, okind_is in En.
+      assert (Hn : is_cr n = true) by exact En.
+      destruct (fbl_head_cr all (Some (tk t)) n r' Hn) as [r'' Hx].
+      assert (Hq : q = true).
+      { destruct D as [D|D]; [exact (D Ep)|]. congruence. }
+      cbn [alone_from]. unfold is_blank at 1. cbn [tk kind_eqb]. rewrite Hq. rewrite Hx at 1. rewrite Hn. cbn [andb].
+      unfold is_cr at 1. cbn [tk kind_eqb].
+      apply IH; [rewrite <- Ht; exact Hr|]. left. unfold okind_is. fold (is_cr t). rewrite Ht. discriminate.
+    + cbn [alone_from]. apply andb_true_intro. split.
+      * destruct (is_blank t) eqn:Bt; [|reflexivity].
+        apply andb_prop in Hb. destruct Hb as [Hq Hnx]. rewrite Hq. cbn [andb].
+        destruct r as [|n r']; [reflexivity|].
+        destruct (fbl_head_cr all (Some (tk t)) n r' Hnx) as [r'' Hx]. rewrite Hx. exact Hnx.
+      * apply IH; [exact Hr|]. left. unfold okind_is. fold (is_cr t). intros X. exact X.
+Qed.
+
+(* every blank_line object that leaves utils.fix_blank_lines is alone on its line: a stale one (left on a line a
+   structural rule has filled) is dropped by the first pass, the ones the second pass creates stand between two
+   carriage returns *)
+Theorem fix_blank_lines_alone l : alone_from true (fix_blank_lines l) = true.
+Proof.
+  unfold fix_blank_lines. apply fbl_alone; [|left; reflexivity].
+  apply drop_stale_alone. reflexivity.
+Qed.
+
+(* ... but an empty first line still gets no blank_line object: the normalisers are the identity on the witness and
+   it is not in reader shape (known C08 finding blank_line / carriage_return at token 0) *)
 Example normaliser_first_line_refuted :
   exists l, fix_trailing_whitespace (fix_blank_lines l) = l /\ shape l = false /\ hd_error l = Some CR.
 Proof. exists [CR; mk KItem [97%N]; CR]. repeat split. Qed.
-Example normaliser_stale_blank_refuted :
-  exists l, fix_trailing_whitespace (fix_blank_lines l) = l /\ shape l = false /\ no_cr_cr l = true.
-Proof. exists [mk KItem [97%N]; mk KBlank []; CR]. repeat split. Qed.
+(* the stale blank_line object of the earlier findings is now removed *)
+Example stale_blank_removed :
+  fix_trailing_whitespace (fix_blank_lines [mk KItem [97%N]; mk KBlank []; CR]) = [mk KItem [97%N]; CR].
+Proof. reflexivity. Qed.
